@@ -52,6 +52,11 @@ func (v *Point) SetExtendedCoordinates(X, Y, Z, T *field.Element) (*Point, error
 
 func isOnCurve(X, Y, Z, T *field.Element) bool {
 	var lhs, rhs field.Element
+	// Z = 0 is not a valid projective coordinate, and would satisfy both
+	// equations below with X = Y = T = 0.
+	if Z.Equal(new(field.Element)) == 1 {
+		return false
+	}
 	XX := new(field.Element).Square(X)
 	YY := new(field.Element).Square(Y)
 	ZZ := new(field.Element).Square(Z)
